@@ -200,6 +200,13 @@ def run(tier):
         rep.setcov('inductive_invariant', dict(tool='apalache', module='Apa_SchemaCache', max_len=20, keys=24,
                                                obligations={o[0]: g for o, g in zip(obligations, apa)},
                                                meaning='HistoryIndependent holds after histories of any length in the model'))
+        # (a'') ... and for every cache limit, key set and ground truth: the TLA+ proof system checks the proof of
+        # ValidateLikeFresh (Proof_SchemaCache.tla) - Validate answers like a fresh process from every cache satisfying
+        # IsCache and re-establishes IsCache; the empty cache satisfies it
+        nobl = common.run_tlapm(specdir, 'Proof_SchemaCache')
+        rep.setcov('machine_checked_proof', dict(tool='tlapm', module='Proof_SchemaCache', theorem='ValidateLikeFresh', obligations_proved=nobl,
+                                                 meaning='for every limit >= 1, key set, ground truth (valid / invalid / broken) and cache satisfying IsCache: '
+                                                         'outcome = fresh outcome and IsCache is preserved; IsCache(<<>>)'))
         # (b) fresh outcomes: the oracle
         allcalls = [(c, ef) for c in sv + va for ef in (False, True)]
         with ctx.Pool(common.NCPU) as pool:
